@@ -146,6 +146,9 @@ pub enum E {
     Block(Blk),
     Assign(usize, Box<E>),
     CAssign(Op, usize, Box<E>),
+    /// `x.f = e` / `x.f op= e`: field (position in the declaration) of a variable of type `R`
+    AssignF(usize, usize, Box<E>),
+    CAssignF(Op, usize, usize, Box<E>),
     Ret(Box<E>),
     Accept(Box<E>),
     Reject(Box<E>),
@@ -333,6 +336,8 @@ pub fn expr(p: &Prog, e: &E, d: usize) -> String {
         E::Block(b) => blk(p, b, d),
         E::Assign(x, v) => format!("x{x} = {}", expr(p, v, d)),
         E::CAssign(op, x, v) => format!("x{x} {}= {}", op.sym(), expr(p, v, d)),
+        E::AssignF(x, i, v) => format!("x{x}.{} = {}", FIELDS[*i], expr(p, v, d)),
+        E::CAssignF(op, x, i, v) => format!("x{x}.{} {}= {}", FIELDS[*i], op.sym(), expr(p, v, d)),
         E::Ret(v) => format!("return {}", operand(p, v, d)),
         E::Accept(v) => format!("accept {}", operand(p, v, d)),
         E::Reject(v) => format!("reject {}", operand(p, v, d)),
@@ -435,6 +440,8 @@ pub fn sx(e: &E) -> String {
         E::Block(b) => format!("(block {})", sblk(b)),
         E::Assign(x, v) => format!("(set {x} {})", sx(v)),
         E::CAssign(op, x, v) => format!("(cset {} {x} {})", op.name(), sx(v)),
+        E::AssignF(x, i, v) => format!("(setf {x} {i} {})", sx(v)),
+        E::CAssignF(op, x, i, v) => format!("(csetf {} {x} {i} {})", op.name(), sx(v)),
         E::Ret(v) => format!("(ret {})", sx(v)),
         E::Accept(v) => format!("(accept {})", sx(v)),
         E::Reject(v) => format!("(reject {})", sx(v)),
@@ -485,6 +492,8 @@ pub fn kind(e: &E) -> String {
         E::Block(_) => "block".into(),
         E::Assign(..) => "assign".into(),
         E::CAssign(..) => "compound-assign".into(),
+        E::AssignF(..) => "assign-field".into(),
+        E::CAssignF(..) => "compound-assign-field".into(),
         E::Ret(_) => "return".into(),
         E::Accept(_) => "accept".into(),
         E::Reject(_) => "reject".into(),
@@ -520,7 +529,7 @@ pub fn children(e: &E) -> Vec<&E> {
             v.push(l);
             v.push(r);
         }
-        E::Not(x) | E::Neg(x) | E::Assign(_, x) | E::CAssign(_, _, x) | E::Ret(x) | E::Accept(x) | E::Reject(x) | E::Try(x) | E::Some(x) | E::Field(x, _) => v.push(x),
+        E::Not(x) | E::Neg(x) | E::Assign(_, x) | E::CAssign(_, _, x) | E::AssignF(_, _, x) | E::CAssignF(_, _, _, x) | E::Ret(x) | E::Accept(x) | E::Reject(x) | E::Try(x) | E::Some(x) | E::Field(x, _) => v.push(x),
         E::Ite(c, t, el) => {
             v.push(c);
             b(&mut v, t);
@@ -630,7 +639,7 @@ pub fn type_of(p: &Prog, e: &E) -> Option<T> {
         E::And(..) | E::Or(..) | E::Not(_) => Some(T::B),
         E::Neg(_) => Some(T::I),
         E::Ite(_, t, el) => blk_ty(p, t).or_else(|| blk_ty(p, el)),
-        E::If1(..) | E::While(..) | E::For(..) | E::Assign(..) | E::CAssign(..) => Some(T::U),
+        E::If1(..) | E::While(..) | E::For(..) | E::Assign(..) | E::CAssign(..) | E::AssignF(..) | E::CAssignF(..) => Some(T::U),
         E::Match(_, _, arms) => arms.iter().find_map(|a| blk_ty(p, &a.body)),
         E::Block(b) => blk_ty(p, b),
         E::Ret(_) | E::Accept(_) | E::Reject(_) => None,
@@ -841,6 +850,8 @@ fn expr_edits(p: &Prog, e: &E, k: &mut usize) -> Option<E> {
         E::Neg(x) => sub!(x, E::Neg),
         E::Assign(v, x) => sub!(x, |n| E::Assign(*v, n)),
         E::CAssign(op, v, x) => sub!(x, |n| E::CAssign(*op, *v, n)),
+        E::AssignF(v, i, x) => sub!(x, |n| E::AssignF(*v, *i, n)),
+        E::CAssignF(op, v, i, x) => sub!(x, |n| E::CAssignF(*op, *v, *i, n)),
         E::Ret(x) => sub!(x, E::Ret),
         E::Accept(x) => sub!(x, E::Accept),
         E::Reject(x) => sub!(x, E::Reject),
@@ -945,7 +956,7 @@ fn renumber(e: &mut E, removed: usize) {
             renumber(l, removed);
             renumber(r, removed);
         }
-        E::Not(x) | E::Neg(x) | E::Assign(_, x) | E::CAssign(_, _, x) | E::Ret(x) | E::Accept(x) | E::Reject(x) | E::Try(x) | E::Some(x) | E::Field(x, _) => renumber(x, removed),
+        E::Not(x) | E::Neg(x) | E::Assign(_, x) | E::CAssign(_, _, x) | E::AssignF(_, _, x) | E::CAssignF(_, _, _, x) | E::Ret(x) | E::Accept(x) | E::Reject(x) | E::Try(x) | E::Some(x) | E::Field(x, _) => renumber(x, removed),
         E::Ite(c, t, el) => {
             renumber(c, removed);
             blk(t, removed);
